@@ -230,6 +230,85 @@ def session_tie_histories(ctx, viol, dist):
     return runs
 
 
+LIST_FOLDERS = ['Alpha', 'Capitalization', 'Digits', 'Other', 'Keyboard', 'Years', 'Context']
+
+
+def list_files_of(rd):
+    """every `value<TAB>probability` list of a ruleset directory that the guesser loads as a column or as the base structures"""
+    out = [os.path.join(rd, 'Grammar', 'grammar.txt'), os.path.join(rd, 'Omen', 'pcfg_omen_prob.txt'),
+           os.path.join(rd, 'Emails', 'email_providers.txt'), os.path.join(rd, 'Websites', 'website_hosts.txt')]
+    for folder in LIST_FOLDERS:
+        fd = os.path.join(rd, folder)
+        if os.path.isdir(fd):
+            out += [os.path.join(fd, fn) for fn in sorted(os.listdir(fd))]
+    return [f for f in out if os.path.exists(f)]
+
+
+def trained_one(ctx, focus, name, pws, ngram, cov, dist):
+    """one training list -> violations of the order property on the trained ruleset (file order, then the queue's own run)"""
+    violations = []
+    root = common.scratch_dir('c01trained')
+    tf = os.path.join(root, name + '.txt')
+    with open(tf, 'w', encoding='utf-8', newline='\n') as f:
+        f.write(''.join(p + '\n' for p in pws))
+    rd = os.path.join(root, name)
+    ok, log = common.train(tf, rd, ngram=ngram, coverage=cov)
+    if not ok:
+        return None
+    wit = {'trained': True, 'name': name, 'passwords': pws, 'ngram': ngram, 'coverage': cov}
+    levels_in_order = None
+    for path in list_files_of(rd):
+        rel = os.path.relpath(path, rd)
+        rows = []
+        with open(path, encoding='utf-8', newline='\n') as f:
+            for line in f.read().split('\n'):
+                if line:
+                    rows.append(line.rsplit('\t', 1))
+        ps = [float(r[1]) for r in rows]
+        if any(b > a for a, b in zip(ps, ps[1:])):
+            violations.append({'property': focus, 'kind': 'trained-list-not-in-probability-order', 'file': rel,
+                               'head': str(rows[:6]), 'witness': wit})
+        if rel.endswith('pcfg_omen_prob.txt'):
+            lv = [int(r[0]) for r in rows]
+            levels_in_order = lv == sorted(lv)
+    dist.setdefault('trained_omen_levels_in_numeric_order', []).append(levels_in_order)
+    pcfg = common.load_grammar(rd)
+    pq = corr_pq.fresh_queue(pcfg)
+    prev, popped = None, 0
+    while popped < ctx.scale(1500, 20000):
+        it = pq.next()
+        if it is None:
+            break
+        popped += 1
+        if prev is not None and it['prob'] > prev:
+            violations.append({'property': focus, 'kind': 'order', 'at': popped, 'prev': common.f2h(prev), 'next': common.f2h(it['prob']),
+                               'item': str(it['pt']), 'witness': wit})
+            break
+        prev = it['prob']
+    dist['trained_popped'] = dist.get('trained_popped', 0) + popped
+    return violations
+
+
+def trained_order_cases(ctx, focus, violations, dist):
+    """the chain the property is about starts at the trainer: rulesets written by the real trainer (Markov structure included), every
+    list file read as text must be in non-increasing probability order (the hypothesis `WF` of C01_order), and the queue run on the
+    loaded ruleset must pop in non-increasing order"""
+    import gen_passwords
+    rng = ctx.rng
+    corpora = [('omen-density', gen_passwords.omen_density_corpus(), 4, 0.6)]
+    for i in range(ctx.scale(2, 8)):
+        corpora.append((f"random{i}", gen_passwords.gen_list(rng, n=rng.randint(20, 60), tame=True, dup_rate=0.5), rng.choice([2, 3, 4]),
+                        rng.choice([0.6, 0.5, 0.9, 0.25])))
+    n = 0
+    for name, pws, ngram, cov in corpora:
+        vs = trained_one(ctx, focus, name, pws, ngram, cov, dist)
+        if vs is None:
+            continue
+        n += 1
+        violations += vs
+    return n
+
+
 def run(ctx, focus):
     rng = ctx.rng
     n_random = ctx.scale(150, 1200 if focus != 'C08' else 350) * (3 if ctx.proof_broken and ctx.quick else 1)
@@ -301,6 +380,8 @@ def run(ctx, focus):
         disagreements.append({'stream': 'pq', 'detail': 'driver does not build'})
         fp_info = {}
     cli_runs = 0
+    if focus == 'C01':
+        cases += trained_order_cases(ctx, focus, violations, dist)
     if focus == 'C02':
         cases += session_full_runs(ctx, violations, dist)
     if focus == 'C08':
@@ -364,6 +445,8 @@ def run(ctx, focus):
 
 def replay(ctx, payload, focus):
     w = payload.get('violation', {}).get('witness') or payload.get('witness')
+    if w and w.get('trained'):
+        return trained_one(ctx, focus, 'replay', w['passwords'], w['ngram'], w['coverage'], {}) or []
     if w and 'cli_history' in w:
         from props import C15 as _c15
         common.use_impl()
